@@ -851,7 +851,7 @@ func coerceToUnsignedByte(arg Object, mods ...Object) (result Object) {
 		}
 		b := make([]byte, len(ta.Bytes))
 		copy(b, ta.Bytes)
-		result = &SignedByte{Bytes: b}
+		result = &UnsignedByte{Bytes: b}
 	case Integer:
 		i64 := ta.Int64()
 		if i64 < 0 {
